@@ -14,6 +14,16 @@ Streams
               `strace` for a sample; the survivor file must load and be a prefix of the final report, and be the
               previous or the new snapshot (model M13).
   C10.reader  a reader thread loads the report file as fast as it can while an `at_each_event` run is saving.
+  C10.cli     (props/_c10x.py) the `lcc run` glue: real argparse definitions, `--save-report` x `$LCC_SAVE_REPORT`, the real
+              `run_suites_from_project` on a generated project; the file must be refreshed at the points of the strategy the user
+              asked for (option over variable over default).
+  C10.locale  (props/_c10x.py) the handler loop in a child process under an ASCII / UTF-8 locale on non-ASCII texts and lone
+              surrogates: the JSON backend saves under every locale; the XML backend's failures are predicted and classified.
+
+Texts: a quarter of the C10.snap cases ("wild") carry every string class of gen.reports (lone surrogates, C0 controls, CR, empty,
+U+FFFE, …) through the run; node names are drawn from the class with dots / dashes / punctuation / non-ASCII; a save that RAISES is
+observed (`save_errors`) and is a violation (`C10/save-raised/<backend>/<class>`), except for the XML format's known text limits
+(C09 / D8), which have their own signatures (`C10/xml-text-limit/…`, open findings) and a run of their own.
 
 The oracles are stated on observations of the real code only (loadability, the prefix relation computed on
 normal forms of loaded files, save seen at each promised event) and never call the model.
@@ -43,7 +53,12 @@ TRUSTED_BASE = [
     "hand-written models LccModel/Model/Writer.lean (ReportWriter, shared) and LccModel/Model/Saving.lean (Prefix, "
     "strategies, FileReportSession, handler-thread loop, file system M13)",
     "decision tables regenerated on every run by executing FileReportSession's handlers and the strategy functions "
-    "of savingstrategy.py on every event class x result status, re-proved by `decide`",
+    "of savingstrategy.py on every event class x result status x node naming (plain, dotted test, dotted suite, both), and "
+    "get_report_saving_strategy behind the real argparse definitions on --save-report x $LCC_SAVE_REPORT, re-proved by `decide`",
+    "hand-written models Model/JsonFile.lean + Model/JsonRender.lean (text of report.js: every string through the ensure_ascii escaping; "
+    "how numbers and times are spelled is a parameter that only has to be ASCII) and Store.xmlSaveOkEnc (the XML text is written raw)",
+    "the status of the result an end event is about is read by the check's own walk of the report objects (own_result_status), not "
+    "through savingstrategy / ReportLocation",
     "correspondence harness harness/props/c10.py + c10_child.py (real writer, real file sessions, real loader, forked "
     "crash children, strace SIGKILL injection)",
     "M13 assumptions (not proved): os.replace within one directory is atomic and not observed before the temporary "
@@ -55,18 +70,26 @@ ASSUMPTIONS = [
     "(Grammar.Fresh) — theorem safe_of_grammar then gives SafeStream; all three are evaluated by the driver on every "
     "generated and every recorded real stream",
     "the report file is only written by FileReportSession through save_report_into_file (json_.py / xml.py / junit.py)",
+    "the file is opened in text mode with the locale encoding (ASCII, Latin-1 or UTF-8 in the model); the XML backend is only claimed "
+    "for texts its format carries under a UTF-8 locale (open findings C10/xml-text-limit/*: lone surrogate, non-XML character, "
+    "non-ASCII under an ASCII locale)",
+    "C10.cli: the wall-clock strategies (every_Ns) are only checked for the final save, loadability and the prefix relation",
     "the tree under test carries fix commit 9b94878 (fixes/D16-atomic-report-save.diff): the model mirrors the repaired "
     "save; on a tree without it the crash stream reports the violation D16",
     "serialisations are self-delimiting (no strict prefix of a saved file loads): sampled on real files by C10.crash",
 ]
-RULE = ("snap: a case counts if at least one intermediate save (a save before the last handled event) was observed under "
+RULE = ("cli: >= 2 results and an intermediate save in a run started through run_suites_from_project; locale: >= 1 save of the JSON "
+        "session under the chosen locale on a stream holding non-ASCII text or a lone surrogate; "
+        "snap: a case counts if at least one intermediate save (a save before the last handled event) was observed under "
         "some strategy and the stream has >= 2 results; crash: the death point lies strictly inside a save (after the "
         "open, before the save is complete) of a run with >= 2 saves; reader: >= 1 load completed between the first and "
         "the last save and >= 2 distinct snapshots were seen; distinct = hash of the case")
 EXPLANATION = ("Lean theorems LccModel.C10.* (Prefix preorder, writer frame property for every handler, C07's grammar + unique "
                "paths imply that no event targets a finished item, snapshot = report of a stream prefix, strategy points, "
-               "final save, crash safety of tmp+rename over all crash points, refutation of truncate-in-place); tied to the code by strategy/handler tables extracted by execution and by the "
-               "streams C10.snap / C10.crash / C10.reader against the real writer, file sessions, loader and OS.")
+               "final save, crash safety of tmp+rename over all crash points, refutation of truncate-in-place; the JSON text is ASCII "
+               "so no save raises under any locale encoding, a raising save loses every later refresh; --save-report wins over "
+               "$LCC_SAVE_REPORT over the default); tied to the code by strategy / handler / option tables extracted by execution and by the "
+               "streams C10.snap / C10.cli / C10.crash / C10.locale / C10.reader against the real CLI glue, writer, file sessions, loader and OS.")
 
 STATIC = ["at_end_of_tests", "at_each_suite", "at_each_test", "at_each_failed_test", "at_each_log"]
 LEAN_STRAT = {"at_end_of_tests": "atEndOfTests", "at_each_suite": "atEachSuite", "at_each_test": "atEachTest",
@@ -107,14 +130,14 @@ def _md(name, rank=0):
     return {"name": name, "desc": "d", "tags": [], "props": [], "links": [], "rank": rank}
 
 
-def _sample_event(wire_name, report):
-    """a real event object of every class, all about suite ['s'] / test ['s','t'] / session setup"""
-    loc = {"k": "test", "path": ["s", "t"]}
+def _sample_event(wire_name, report, sn="s", tn="t"):
+    """a real event object of every class, all about suite [sn] / test [sn, tn] / session setup"""
+    loc = {"k": "test", "path": [sn, tn]}
     base = {"e": wire_name, "t": 5000}
     if wire_name.startswith("suite"):
-        base.update(path=["s"], md=_md("s"))
+        base.update(path=[sn], md=_md(sn))
     elif wire_name.startswith("test"):
-        base.update(path=["s", "t"], md=_md("t"), reason="r")
+        base.update(path=[sn, tn], md=_md(tn), reason="r")
     elif wire_name in ("stepStart", "stepEnd"):
         base.update(loc=loc, desc="st", tid=1)
     elif wire_name == "log":
@@ -128,7 +151,7 @@ def _sample_event(wire_name, report):
     return R.build_event(base, report)
 
 
-def _report_with(arg):
+def _report_with(arg, sn="s", tn="t"):
     """a real report in which `report.get(location)` of every end-of-result location behaves as `arg` says:
     'raises' (suite / test missing), 'absent' (setup / teardown None), or a status (None, 'passed', ...)"""
     from lemoncheesecake.reporting.report import Report, SuiteResult, TestResult, Result
@@ -136,7 +159,7 @@ def _report_with(arg):
     r.start_time = 1.0
     if arg == "raises":
         return r
-    s = SuiteResult("s", "d")
+    s = SuiteResult(sn, "d")
     s.start_time = 1.0
     r.add_suite(s)
     if arg == "absent":
@@ -150,7 +173,7 @@ def _report_with(arg):
     r.test_session_teardown = res(Result())
     s.suite_setup = res(Result())
     s.suite_teardown = res(Result())
-    s.add_test(res(TestResult("t", "d")))
+    s.add_test(res(TestResult(tn, "d")))
     return r
 
 
@@ -204,12 +227,15 @@ def tables(ctx):
         return "ResArg.present " + ("none" if arg[1] is None else "(some Status.%s)" % arg[1])
     args = ["raises", "absent"] + [("st", s) for s in (None, "passed", "failed", "skipped", "disabled")]
     rows = []
-    for expr in STATIC + ["at_each_event"]:
+    # node names: the decision must not depend on them — plain identifiers, and names holding the separator of path strings
+    # (`compat_1.2`, a suite `x.y`), every combination emitted as the SAME row
+    namings = [("s", "t"), ("s", "compat_1.2"), ("x.y", "t"), ("a.b", "c.d")]
+    for expr, (sn, tn) in [(e, n) for e in STATIC + ["at_each_event"] for n in namings]:
         strat = SS.make_report_saving_strategy(expr)
         for w, l, cls in EV_CLASSES:
             for arg in args:
-                rep = _report_with(arg)
-                ev = _sample_event(w, rep)
+                rep = _report_with(arg, sn, tn)
+                ev = _sample_event(w, rep, sn, tn)
                 # combinations that cannot be set up: a missing test always raises, a session result never does
                 if arg == "raises" and w in ("sessionSetupEnd", "sessionTeardownEnd"):
                     continue
@@ -266,7 +292,66 @@ def tables(ctx):
     finally:
         SS.time = saved
     t3 = C.Table("intervalTable", "List ((Nat × Nat × Nat) × Bool)", rows, imports)
-    return [t1, t2, t3]
+    return [t1, t2, t3, save_option_table()]
+
+
+OPTION_VALUES = [None, "", "at_end_of_tests", "at_each_suite", "at_each_test", "at_each_failed_test", "at_each_log", "at_each_event",
+                 "every_2s", "every 10s", "every_0s", "bogus", "every_s", "at_each_log "]
+
+
+def lean_opt_str(v):
+    return "none" if v is None else "(some %s)" % json.dumps(v)
+
+
+def strategy_identity(strat):
+    """a strategy object as built by `make_report_saving_strategy` → (Lean term, wire form)"""
+    from lemoncheesecake.reporting import savingstrategy as SS
+    if strat is None:
+        return "Strategy.atEndOfTests", {"k": "atEndOfTests"}
+    if isinstance(strat, SS.SaveAtInterval):
+        n = strat.interval
+        return ("Strategy.everyN %d" % n if isinstance(n, int) and n >= 0 else "UNEXPECTED_INTERVAL"), {"k": "everyN", "n": n}
+    for name, lean in (("save_at_each_suite_strategy", "atEachSuite"), ("save_at_each_test_strategy", "atEachTest"),
+                       ("save_at_each_failed_test_strategy", "atEachFailedTest"), ("save_at_each_log_strategy", "atEachLog")):
+        if strat is getattr(SS, name, None):
+            return "Strategy." + lean, {"k": lean}
+    return "UNEXPECTED_STRATEGY", {"k": "unknown:" + getattr(strat, "__name__", type(strat).__name__)}
+
+
+def real_chosen_strategy(cli, env):
+    """the real decision of `lcc run`: `--save-report cli` parsed by the real argparse definitions of RunCommand, `$LCC_SAVE_REPORT`
+    = env (None: not given / unset), then the real `get_report_saving_strategy(cli_args)`.  → strategy object or "rejected"."""
+    from lemoncheesecake.cli.commands.run import get_report_saving_strategy
+    from lemoncheesecake.exceptions import LemoncheesecakeException
+    from props._cli import real_parser
+    argv = [] if cli is None else ["--save-report", cli]
+    cli_args = real_parser().parse_args(argv)
+    saved = os.environ.pop("LCC_SAVE_REPORT", None)
+    try:
+        if env is not None:
+            os.environ["LCC_SAVE_REPORT"] = env
+        try:
+            return get_report_saving_strategy(cli_args)
+        except LemoncheesecakeException:
+            return "rejected"
+    finally:
+        os.environ.pop("LCC_SAVE_REPORT", None)
+        if saved is not None:
+            os.environ["LCC_SAVE_REPORT"] = saved
+
+
+def save_option_table():
+    """T4: which strategy `lcc run` uses for every combination of `--save-report` (absent, empty, every documented name, the
+    deprecated alias, interval spellings, invalid values) and `$LCC_SAVE_REPORT` (same values) — by executing the real argparse
+    definitions and the real `get_report_saving_strategy`"""
+    rows = []
+    for cli in OPTION_VALUES:
+        for env in OPTION_VALUES:
+            got = real_chosen_strategy(cli, env)
+            out = "none" if got == "rejected" else "some (%s)" % strategy_identity(got)[0]
+            rows.append(("(%s, %s)" % (lean_opt_str(cli), lean_opt_str(env)), out,
+                         "--save-report %r with $LCC_SAVE_REPORT=%r -> %s" % (cli, env, out)))
+    return C.Table("saveOptionTable", "List ((Option String × Option String) × Option Strategy)", rows, ("LccModel.Model.Saving",))
 
 
 # ------------------------------------------------------------------------------------------------
@@ -283,9 +368,14 @@ def _backends():
             def __init__(self, *a, **kw):
                 base.__init__(self, *a, **kw)
                 self.saves = 0
+                self.save_errors = []        # [(number of completed saves before it, exception class)]
 
             def save_report(self, filename, report):
-                base.save_report(self, filename, report)
+                try:
+                    base.save_report(self, filename, report)
+                except BaseException as e:
+                    self.save_errors.append([self.saves, type(e).__name__, str(e)[:120]])
+                    raise
                 self.saves += 1
         Counting.__name__ = "Counting" + base.__name__
         return Counting
@@ -341,6 +431,46 @@ def load_nf(path):
         return {"error": "nf:" + type(e).__name__, "msg": str(e)[:200]}
 
 
+def own_result_status(report, event):
+    """(is this the end of a test / setup / teardown?, status of that result in the report) — found by the check's OWN walk
+    of the report objects along the node's names (first suite of each name, then the test of that name), independent of
+    `savingstrategy._is_end_of_result_event` / `ReportLocation` / `Report.get*` (the code under test)."""
+    name = type(event).__name__
+
+    def names(node):
+        out = []
+        while node is not None:
+            out.append(node.name)
+            node = node.parent_suite
+        return out[::-1]
+
+    def suite_at(path):
+        lst, s = report._suites, None
+        for n in path:
+            s = next((x for x in lst if x.name == n), None)
+            if s is None:
+                return None
+            lst = s._suites
+        return s
+    res = None
+    if name == "TestSessionSetupEndEvent":
+        res = report._test_session_setup
+    elif name == "TestSessionTeardownEndEvent":
+        res = report._test_session_teardown
+    elif name in ("SuiteSetupEndEvent", "SuiteTeardownEndEvent"):
+        s = suite_at(names(event.suite))
+        if s is not None:
+            res = s._suite_setup if name == "SuiteSetupEndEvent" else s._suite_teardown
+    elif name == "TestEndEvent":
+        p = names(event.test)
+        s = suite_at(p[:-1])
+        if s is not None:
+            res = next((t for t in s._tests.values() if t.name == p[-1]), None)
+    else:
+        return False, None
+    return True, (None if res is None else res.status)
+
+
 class Observer:
     """subscribed LAST: runs on the handler thread after the writer and every file session handled the event"""
 
@@ -358,15 +488,10 @@ class Observer:
         raise AttributeError(name)
 
     def _after(self, event):
-        from lemoncheesecake.reporting import savingstrategy as SS
         self.k += 1
-        try:
-            loc = SS._is_end_of_result_event(event)
-            if loc is not None:
-                res = loc.get(self.report)
-                self.status_after[self.k] = None if res is None else res.status
-        except Exception:
-            pass
+        is_end, status = own_result_status(self.report, event)
+        if is_end:
+            self.status_after[self.k] = status
         for i, (path, be) in enumerate(self.sessions):
             if be.saves != self.seen[i]:
                 n_new = be.saves - self.seen[i]
@@ -421,7 +546,7 @@ def run_stream(events, nb_threads, specs, top, clock_seq=None, async_mgr=True, p
             return out
         for i, (path, be) in enumerate(sessions):
             fin = load_nf(path) if os.path.exists(path) else None
-            out["sessions"].append({"spec": list(specs[i]), "saves": be.saves,
+            out["sessions"].append({"spec": list(specs[i]), "saves": be.saves, "save_errors": be.save_errors,
                                     "copies": [{"k": k, "n": n, "load": l} for k, n, l in obs.copies[i]], "final": fin,
                                     "stray": sorted(f for f in os.listdir(os.path.dirname(path))
                                                     if f != os.path.basename(path))})
@@ -610,6 +735,31 @@ def interleaved_events(rep, rng, parallel):
     return ev
 
 
+def text_profile(events):
+    """which text classes the strings of an event stream hold (decides what the XML format can carry, see C09 / D8)"""
+    out = set()
+
+    def visit(x):
+        if isinstance(x, str):
+            for ch in x:
+                c = ord(ch)
+                if 0xD800 <= c <= 0xDFFF:
+                    out.add("lone-surrogate")
+                elif (c < 0x20 and ch not in "\t\n\r") or c in (0xFFFE, 0xFFFF):
+                    out.add("non-xml-char")
+                elif c > 0x7F:
+                    out.add("non-ascii")
+        elif isinstance(x, dict):
+            for k, v in x.items():
+                if k not in ("e", "k", "level"):
+                    visit(v)
+        elif isinstance(x, list):
+            for v in x:
+                visit(v)
+    visit(events)
+    return sorted(out)
+
+
 def gen_stream(rng, max_depth=3, mode=None, unfinished=0.2):
     mode = mode or rng.choice(["plain", "plain", "safe"])
     rep = R.gen_report(rng, mode, max_depth=max_depth, unfinished=unfinished)
@@ -652,15 +802,26 @@ def mutate_stream(events, rng):
 
 # real runs --------------------------------------------------------------------------------------
 
-def gen_real_spec(rng):
+REAL_WILD = ["plain", "non-ascii", "astral", "surrogate", "surrogate", "c0", "cr", "empty", "markup", "quote", "lf", "fffe"]
+
+
+def gen_real_spec(rng, texts="plain"):
+    """texts: what the log messages / step names passed to the REAL logging API hold ("plain" | "safe" | "wild");
+    a third of the tests and suites get an explicit `name=` (dotted, dashed, …: `gen.reports.gen_node_name`)"""
+    def text(plain):
+        if texts == "plain" or rng.random() < 0.5:
+            return plain
+        cls = rng.choice(REAL_WILD if texts == "wild" else ["non-ascii", "astral", "markup", "quote", "lf", "plain"])
+        return R.gen_string(rng, cls) or plain if cls != "empty" else ""
+
     def acts():
         out = []
         for _ in range(rng.randint(0, 4)):
             r = rng.random()
             if r < 0.25:
-                out.append(["step", "step %d" % rng.randint(0, 5)])
+                out.append(["step", text("step %d" % rng.randint(0, 5)) or "step"])
             elif r < 0.6:
-                out.append(["log", rng.choice(["debug", "info", "warn", "error", "info", "info"]), "m%d" % rng.randint(0, 99)])
+                out.append(["log", rng.choice(["debug", "info", "warn", "error", "info", "info"]), text("m%d" % rng.randint(0, 99))])
             elif r < 0.85:
                 out.append(["check", rng.random() < 0.75])
             elif r < 0.93:
@@ -676,9 +837,19 @@ def gen_real_spec(rng):
             if mode == "dep" and not (tests and tests[-1]["mode"] == "run"):
                 mode = "run"
             tests.append({"name": "%s_t%d" % (name, i), "acts": acts(), "mode": mode})
+        # declared names (`@lcc.test(name=…)`): never on a test another one depends on (depends_on takes a dotted PATH)
+        for i, t in enumerate(tests):
+            nxt = tests[i + 1]["mode"] if i + 1 < len(tests) else None
+            if nxt != "dep" and rng.random() < 0.35:
+                t["dname"] = "%s %d" % (R.gen_node_name(rng, rng.choice(["dotted", "dotted", "dash", "punct"]), ascii_only=texts == "plain"), i)
         subs = [suite("%s_s%d" % (name, i), depth + 1) for i in range(rng.choice([0, 0, 1, 2]) if depth < 2 else 0)]
-        return {"name": name, "tests": tests, "subs": subs, "setup": rng.choice([None, None, acts()]),
-                "teardown": rng.choice([None, None, acts()])}
+        out = {"name": name, "tests": tests, "subs": subs, "setup": rng.choice([None, None, acts()]),
+               "teardown": rng.choice([None, None, acts()])}
+        def has_dep(x):
+            return any(t["mode"] == "dep" for t in x["tests"]) or any(has_dep(y) for y in x["subs"])
+        if rng.random() < 0.3 and not has_dep(out):
+            out["dname"] = "%s.%s" % (name, rng.choice(["v1.2", "x", "0"]))
+        return out
     return {"suites": [suite("top%d" % i, 1) for i in range(rng.choice([1, 1, 2]))], "nb_threads": rng.choice([1, 1, 2, 3])}
 
 
@@ -704,12 +875,12 @@ def _build_real_suites(spec):
 
     def cls(s, prefix):
         ns = {}
-        path = prefix + [s["name"]]
+        path = prefix + [s.get("dname") or s["name"]]
         prev = None
         for t in s["tests"]:
             f = (lambda b: (lambda self: b()))(body(t["acts"]))
             f.__name__ = t["name"]
-            f = lcc.test("desc of " + t["name"])(f)
+            f = lcc.test("desc of " + t["name"], name=t.get("dname"))(f)
             if t["mode"] == "disabled":
                 f = lcc.disabled("generated reason")(f)
             elif t["mode"] == "dep" and prev is not None:
@@ -723,7 +894,7 @@ def _build_real_suites(spec):
         for sub in s["subs"]:
             ns[sub["name"]] = cls(sub, path)
         c = type(s["name"], (object,), ns)
-        return lcc.suite("desc of " + s["name"])(c)
+        return lcc.suite("desc of " + s["name"], name=s.get("dname"))(c)
     return load_suites_from_classes([cls(s, []) for s in spec["suites"]])
 
 
@@ -772,7 +943,7 @@ def run_real(spec, specs, top):
     out = {"handled": obs.k, "failure": failure, "sessions": []}
     for i, (path, be) in enumerate(sessions):
         fin = load_nf(path) if os.path.exists(path) else None
-        out["sessions"].append({"spec": list(specs[i]), "saves": be.saves,
+        out["sessions"].append({"spec": list(specs[i]), "saves": be.saves, "save_errors": be.save_errors,
                                 "copies": [{"k": k, "n": n, "load": l} for k, n, l in obs.copies[i]], "final": fin,
                                 "stray": sorted(f for f in os.listdir(os.path.dirname(path)) if f != os.path.basename(path))})
     out["status_after"] = {str(k): v for k, v in obs.status_after.items()}
@@ -851,7 +1022,7 @@ def _intern(obs):
                 table.append(load["nf"])
             return {"nf": index[key]}
         return load
-    for sess in list(obs["sessions"]) + ([obs["every"]] if "every" in obs else []):
+    for sess in list(obs["sessions"]) + ([obs["every"]] if "every" in obs else []) + ([obs["xml_run"]["session"]] if "xml_run" in obs else []):
         for c in sess["copies"]:
             c["load"] = put(c["load"])
         sess["final"] = put(sess["final"])
@@ -861,6 +1032,75 @@ def _intern(obs):
 
 def _nf(obs, load):
     return obs["nfs"][load["nf"]]
+
+
+def save_raised_signature(kind, cls, profile, locale="utf8"):
+    """a save that raised: the classes that are the XML format's known text limits (C09 / D8, seen from C10) have their own
+    signatures; everything else is `C10/save-raised/<backend>/<exception class>`"""
+    if kind == "xml" and cls == "UnicodeEncodeError":
+        if "lone-surrogate" in profile:
+            return "C10/xml-text-limit/lone-surrogate-save-raises"
+        if locale != "utf8" and "non-ascii" in profile:
+            return "C10/xml-text-limit/non-ascii-under-%s-locale" % locale
+    return "C10/save-raised/%s/%s" % (kind, cls)
+
+
+def check_sessions(events, handled, failure, sessions, status_after, final_report, nf_of, locale="utf8"):
+    """C10 on the observation of one run of the handler loop (a well-formed stream): every saved file loads and is a prefix of
+    the final report, a save was seen after every promised event and at the end of the session, no save raised.
+    `nf_of(load)` gives the normal form of a loaded snapshot.  Never calls the model."""
+    fails = []
+    profile = text_profile(events)
+    stopped = failure is not None or handled != len(events)
+    if stopped:
+        raised = [(s, e) for s in sessions for e in s.get("save_errors", [])]
+        if not raised:
+            # a well-formed stream made a handler other than a save raise: not this property's business (C07/C11) — but
+            # the check must not silently lose it: classified as not observable
+            raise RuntimeError("handler raised %s after %d/%d events of a well-formed stream" % (failure, handled, len(events)))
+        for s, (n_before, cls, msg) in raised:
+            kind, _, expr = s["spec"]
+            fails.append(C.Failure(save_raised_signature(kind, cls, profile, locale),
+                                   "%s/%s: save #%d raised %s (%s) while handling event %d of %d: the file is not refreshed, event "
+                                   "handling stops, the report is not saved at the end of the run"
+                                   % (kind, expr, n_before + 1, cls, msg, handled + 1, len(events))))
+    for s in sessions:
+        kind, _, expr = s["spec"]
+        final = s["final"]
+        tag = "%s/%s" % (kind, expr.replace("at_each_event", "at_each_log") if not expr.startswith("every") else "every_Ns")
+        for c in s["copies"]:
+            if "error" in c["load"]:
+                sig = "C10/snapshot/unloadable/" + kind
+                if kind == "xml" and "non-xml-char" in profile:
+                    sig = "C10/xml-text-limit/non-xml-char-unloadable"
+                fails.append(C.Failure(sig, "%s: the file saved after event %d does not load: %s" % (tag, c["k"], c["load"])))
+                continue
+            # prefix of the final report: the last file (normal form) or, without one, the real in-memory report at the end
+            ref_final = nf_of(final) if final is not None and "nf" in final else final_report
+            why = nf_prefix(nf_of(c["load"]), ref_final) if ref_final is not None else []
+            if why:
+                fails.append(C.Failure("C10/snapshot/not-prefix/" + kind,
+                                       "%s: the file saved after event %d is not a prefix of the final report: %s"
+                                       % (tag, c["k"], why[:3])))
+            if c["n"] != 1:
+                fails.append(C.Failure("C10/save/several-per-event", "%s: %d saves while handling event %d" % (tag, c["n"], c["k"])))
+        if s.get("stray"):
+            fails.append(C.Failure("C10/stray-files", "%s: files left beside the report: %s" % (tag, s["stray"])))
+        if stopped:
+            continue        # the root cause is reported above; what was not refreshed afterwards follows from it
+        got = [c["k"] for c in s["copies"]]
+        if not expr.startswith("every"):
+            for k in promised_points(expr, events, status_after):
+                if k not in got:
+                    what = "final-save-missing" if events[k - 1]["e"] == "sessionEnd" else "missed-save"
+                    fails.append(C.Failure("C10/strategy/%s/%s" % (expr.replace("at_each_event", "at_each_log"), what),
+                                           "%s: no save after event %d (%s)" % (tag, k, events[k - 1]["e"])))
+        elif events and events[-1]["e"] == "sessionEnd" and len(events) not in got:
+            fails.append(C.Failure("C10/strategy/every_Ns/final-save-missing", "%s: no save at the end of the session" % tag))
+        if got and final is not None and "nf" in final and "nf" in s["copies"][-1]["load"] \
+                and nf_of(final) != nf_of(s["copies"][-1]["load"]):
+            fails.append(C.Failure("C10/file-changed-without-save", "%s: file differs from the last observed save" % tag))
+    return fails
 
 
 class Snap(C.Stream):
@@ -888,11 +1128,15 @@ class Snap(C.Stream):
         variant = rng.randint(0, 3)
         alias = rng.random() < 0.3
         every = rng.choice([0, 1, 1, 2, 3])
+        # texts: what the strings of the run hold.  "wild": every class of gen.reports (lone surrogates, C0 controls, CR, empty, …):
+        # the JSON sessions must carry them; the XML backend cannot (C09 / D8) and gets a run of its own, classified
+        texts = rng.choice(["plain", "plain", "safe", "wild"])
         if r < 0.16:
-            return {"kind": "real", "spec": gen_real_spec(rng), "variant": variant, "alias": alias}
-        events, nb = gen_stream(rng, max_depth=rng.choice([2, 3, 3]))
+            return {"kind": "real", "spec": gen_real_spec(rng, texts), "variant": variant, "alias": alias, "texts": texts}
+        mode = texts if texts == "wild" else None
+        events, nb = gen_stream(rng, max_depth=rng.choice([2, 3, 3]), mode=mode)
         if len(events) > 160:
-            events, nb = gen_stream(rng, max_depth=2)
+            events, nb = gen_stream(rng, max_depth=2, mode=mode)
         label = "wf"
         if r > 0.8:
             events, label = mutate_stream(events, rng)
@@ -903,14 +1147,18 @@ class Snap(C.Stream):
         for _ in range(2 * len(events) + 4):
             t += rng.choice([0, 250, 250, 500, 750, 1000, 1750, 4000])
             clock.append(t)
-        return {"kind": "gen", "label": label, "events": events, "nb_threads": nb, "variant": variant, "alias": alias,
+        case = {"kind": "gen", "label": label, "events": events, "nb_threads": nb, "variant": variant, "alias": alias,
                 "every": every, "every_backend": rng.choice(["json", "xml"]), "clock": clock}
+        if texts == "wild":
+            case.update(texts="wild", every_backend="json", xml_strategy=rng.choice(STATIC))
+        return case
 
     @staticmethod
     def _specs(case):
         log = "at_each_event" if case.get("alias") else "at_each_log"
         exprs = ["at_end_of_tests", "at_each_suite", "at_each_test", "at_each_failed_test", log]
-        return [(kind, case.get("variant", 0), e) for e in exprs for kind in ("json", "xml")]
+        kinds = ("json",) if case.get("texts") == "wild" else ("json", "xml")
+        return [(kind, case.get("variant", 0), e) for e in exprs for kind in kinds]
 
     def impl(self, case):
         top = tempfile.mkdtemp(prefix="lccverif-c10-")
@@ -926,6 +1174,10 @@ class Snap(C.Stream):
             obs2 = run_stream(case["events"], case["nb_threads"], espec, os.path.join(top, "b"), clock_seq=case["clock"])
             obs["every"] = obs2["sessions"][0]
             obs["every_handled"] = obs2["handled"]
+            if case.get("xml_strategy"):
+                # the XML backend on texts its format cannot carry: a run of its own (a raising save stops the whole handler loop)
+                obs3 = run_stream(case["events"], case["nb_threads"], [("xml", 0, case["xml_strategy"])], os.path.join(top, "x"))
+                obs["xml_run"] = {"handled": obs3["handled"], "failure": obs3["failure"], "session": obs3["sessions"][0]}
             return _intern(obs)
         finally:
             shutil.rmtree(top, ignore_errors=True)
@@ -938,46 +1190,13 @@ class Snap(C.Stream):
         if case.get("label", "wf") != "wf":
             return []          # ill-formed streams cannot come out of a run (C07); only the model is compared
         events = self._events(case, obs)
-        fails = []
-        if obs["failure"] is not None or obs["handled"] != len(events):
-            # a well-formed stream made a handler raise: not this property's business (C07/C11) — but the check
-            # must not silently lose it: classified as not observable
-            raise RuntimeError("handler raised %s after %d/%d events of a well-formed stream" %
-                               (obs["failure"], obs["handled"], len(events)))
         sessions = list(obs["sessions"]) + ([obs["every"]] if "every" in obs else [])
-        for s in sessions:
-            kind, _, expr = s["spec"]
-            final = s["final"]
-            tag = "%s/%s" % (kind, expr.replace("at_each_event", "at_each_log") if not expr.startswith("every") else "every_Ns")
-            for c in s["copies"]:
-                if "error" in c["load"]:
-                    fails.append(C.Failure("C10/snapshot/unloadable/" + kind,
-                                           "%s: the file saved after event %d does not load: %s" % (tag, c["k"], c["load"])))
-                    continue
-                # prefix of the final report: the real in-memory report at the end of the stream (normal form);
-                # and of the last file
-                ref_final = _nf(obs, final) if final is not None and "nf" in final else obs["final_report"]
-                why = nf_prefix(_nf(obs, c["load"]), ref_final) if ref_final is not None else []
-                if why:
-                    fails.append(C.Failure("C10/snapshot/not-prefix/" + kind,
-                                           "%s: the file saved after event %d is not a prefix of the final report: %s"
-                                           % (tag, c["k"], why[:3])))
-                if c["n"] != 1:
-                    fails.append(C.Failure("C10/save/several-per-event", "%s: %d saves while handling event %d" % (tag, c["n"], c["k"])))
-            got = [c["k"] for c in s["copies"]]
-            if not expr.startswith("every"):
-                for k in promised_points(expr, events, obs["status_after"]):
-                    if k not in got:
-                        what = "final-save-missing" if events[k - 1]["e"] == "sessionEnd" else "missed-save"
-                        fails.append(C.Failure("C10/strategy/%s/%s" % (expr.replace("at_each_event", "at_each_log"), what),
-                                               "%s: no save after event %d (%s)" % (tag, k, events[k - 1]["e"])))
-            elif events and events[-1]["e"] == "sessionEnd" and len(events) not in got:
-                fails.append(C.Failure("C10/strategy/every_Ns/final-save-missing", "%s: no save at the end of the session" % tag))
-            if got and final is not None and "nf" in final and "nf" in s["copies"][-1]["load"] \
-                    and _nf(obs, final) != _nf(obs, s["copies"][-1]["load"]):
-                fails.append(C.Failure("C10/file-changed-without-save", "%s: file differs from the last observed save" % tag))
-            if s.get("stray"):
-                fails.append(C.Failure("C10/stray-files", "%s: files left beside the report: %s" % (tag, s["stray"])))
+        fails = check_sessions(events, obs["handled"], obs["failure"], sessions, obs["status_after"], obs["final_report"],
+                               lambda load: _nf(obs, load))
+        if "xml_run" in obs:
+            x = obs["xml_run"]
+            fails += check_sessions(events, x["handled"], x["failure"], [x["session"]], obs["status_after"], None,
+                                    lambda load: _nf(obs, load))
         return fails
 
     def request(self, case, obs):
@@ -996,8 +1215,15 @@ class Snap(C.Stream):
             keep = set(rng.sample(want, 20)) | {want[0], want[-1]}
             want = sorted(keep)
         nb = obs["nb_threads"] if case["kind"] == "real" else case["nb_threads"]
-        return {"op": "snap", "events": R.wire(events), "nb_threads": nb, "strategies": strategies,
-                "clock": case.get("clock", [0]), "want": want}
+        req = {"op": "snap", "events": R.wire(events), "nb_threads": nb, "strategies": strategies,
+               "clock": case.get("clock", [0]), "want": want}
+        if "xml_run" in obs:
+            req["xml_sessions"] = [{"s": strat_wire(case["xml_strategy"]), "enc": "utf8"}]
+        elif any(s.get("save_errors") for s in obs["sessions"]):
+            # a save raised inside the common handler loop (an ill-formed stream: e.g. the session start was dropped and the XML
+            # serialiser cannot format a missing start time): the model of every XML session says where (`sessRunG`)
+            req["xml_sessions"] = [{"s": strat_wire(e), "enc": "utf8"} for kind, _, e in specs if kind == "xml"]
+        return req
 
     def compare(self, case, obs, ans):
         if "error" in ans:
@@ -1008,12 +1234,18 @@ class Snap(C.Stream):
             return "a stream that should be well-formed is not accepted: safe=%s wf=%s fresh=%s" % (ans["safe"], ans["wf"], ans["fresh"])
         if ans["wf"] and ans["fresh"] and not ans["safe"]:
             return "stream accepted by the grammar (C07) with unique paths, but some event targets a finished item (safeRun false)"
+        if "xml_run" not in obs and any(s.get("save_errors") for s in obs["sessions"]):
+            return compare_stopped_by_save(obs, ans)
         if ans["handled"] != obs["handled"]:
             return "writer handled %d events in the model, %d in the implementation (failure %s / %s)" % (
                 ans["handled"], obs["handled"], ans["err"], obs["failure"])
         mclass = ans["err"]["class"] if ans["err"] else None
         if mclass != obs["failure"]:
             return "handler failure: model %s, implementation %s" % (mclass, obs["failure"])
+        if "xml_run" in obs:
+            d = compare_xml_session(obs["xml_run"], ans["xml_sessions"][0])
+            if d:
+                return d
         sessions = list(obs["sessions"]) + ([obs["every"]] if "every" in obs else [])
         reports = {k: R.nf_of_desc(R.unwire(r)) for k, r in ans["reports"]}
         mprefix = {k: v for k, v in ans["prefix"]}
@@ -1050,6 +1282,8 @@ class Snap(C.Stream):
         f.append("threads=%d" % nb)
         if obs["failure"]:
             f.append("handler-raised")
+            if any(s.get("save_errors") for s in obs["sessions"]):
+                f.append("loop-stopped-by-raising-save")
         if events and events[-1]["e"] != "sessionEnd":
             f.append("unfinished-stream")
         for s in obs["sessions"]:
@@ -1060,6 +1294,19 @@ class Snap(C.Stream):
             f.append("every_%ds:saves=%s" % (case["every"], min(len(obs["every"]["copies"]), 9)))
         if any(v == "failed" for v in obs["status_after"].values()):
             f.append("has-failed-result")
+        f.append("texts=" + case.get("texts", "plain-or-safe"))
+        f += ["text:" + c for c in text_profile(events)]
+        if "xml_run" in obs:
+            x = obs["xml_run"]
+            f.append("xml-run:" + ("save-raised" if x["session"].get("save_errors") else
+                                   "unloadable-snapshot" if any("error" in c["load"] for c in x["session"]["copies"]) else "clean"))
+        ends = [e for e in events if e["e"] in END_OF_RESULT and "path" in e]
+        if any("." in n for e in ends for n in e["path"]):
+            f.append("dotted-name-on-ended-result")
+            failed_dotted = [i for i, e in enumerate(events) if e["e"] in END_OF_RESULT and "path" in e and any("." in n for n in e["path"])
+                             and obs["status_after"].get(str(i + 1)) == "failed"]
+            if failed_dotted:
+                f.append("dotted-name-on-FAILED-result")
         return sorted(set(f))
 
     def shrink(self, case):
@@ -1090,6 +1337,49 @@ class Snap(C.Stream):
                         and not (x.get("loc", {}).get("path") == p and x.get("loc", {}).get("k") == "test")]
                 if len(rest) < len(ev):
                     yield dict(case, events=rest)
+
+
+def compare_stopped_by_save(obs, ans):
+    """the common handler loop of a C10.snap run was stopped by a raising save: the model's XML sessions (`sessRunG`) must
+    predict a raising save at that very event, and every session's saves up to there"""
+    xml_models = ans.get("xml_sessions") or []
+    stops = [m["handled"] for m in xml_models if m["err"] == "save"]
+    raised = [(s["spec"], e) for s in obs["sessions"] for e in s["save_errors"]]
+    if not stops:
+        return "a save raised in the implementation (%s), the model predicts none" % (raised[:2],)
+    if min(stops) != obs["handled"]:
+        return "the loop stopped after %d events (%s), the model's first raising XML save comes after %d" % (obs["handled"], raised[:2], min(stops))
+    if any(s["spec"][0] != "xml" for s in obs["sessions"] if s["save_errors"]):
+        return "a save of another backend than xml raised: %s" % (raised[:2],)
+    xi = 0
+    for s, m in zip(obs["sessions"], ans["strategies"]):
+        saves = m["saves"]
+        if s["spec"][0] == "xml":
+            saves = xml_models[xi]["saves"]
+            xi += 1
+        want = [k for k in saves if k <= obs["handled"]]
+        got = [c["k"] for c in s["copies"]]
+        if got != want:
+            return "%s: saves before the loop stopped: implementation %s, model %s" % (s["spec"], got, want)
+    return None
+
+
+def compare_xml_session(x, m):
+    """an XML session on texts the format may not carry (observation `x`) against `sessRunG (Store.xmlSaveOkEnc enc)` (`m`):
+    the save points up to the first raising save, where the run stopped and why, and whether each saved file loads"""
+    sess = x["session"]
+    got = [c["k"] for c in sess["copies"]]
+    if got != m["saves"]:
+        return "xml session %s: save points: implementation %s, model %s" % (sess["spec"], got, m["saves"])
+    raised = bool(sess.get("save_errors"))
+    if raised != (m["err"] == "save"):
+        return "xml session %s: a save raised: implementation %s (%s), model %s" % (sess["spec"], raised, sess.get("save_errors"), m["err"])
+    if raised and x["handled"] != m["handled"]:
+        return "xml session %s: events handled before the raising save: implementation %d, model %d" % (sess["spec"], x["handled"], m["handled"])
+    loads = ["loaded" if "nf" in c["load"] else "parse-error" for c in sess["copies"]]
+    if loads != m["loads"]:
+        return "xml session %s: loadability of the saved files: implementation %s, model %s" % (sess["spec"], loads, m["loads"])
+    return None
 
 
 def _first_diff(a, b, path=""):
@@ -1468,5 +1758,42 @@ class Reader(C.Stream):
                 "distinct>=5" if obs["distinct"] >= 5 else "distinct<5"]
 
 
+def _with_text(events, msg):
+    ev = copy.deepcopy(events)
+    for e in ev:
+        if e["e"] == "log":
+            e["msg"] = msg
+    return ev
+
+
+# minimal witnesses replayed first
+Snap.corpus += [
+    # a failing test whose name holds the separator of path strings, in a suite whose name does too (at_each_failed_test must
+    # save when it ends); the same with plain names is corpus[0]
+    {"kind": "gen", "label": "wf", "nb_threads": 1, "variant": 0, "alias": False, "every": 1, "every_backend": "json",
+     "clock": [10_000 + 750 * i for i in range(40)],
+     "events": json.loads(json.dumps(_CORPUS_EVENTS).replace('"a"', '"compat_1.2"').replace('"s"', '"x.y"'))},
+    # texts the file encoding cannot take raw: a lone surrogate (what os.fsdecode gives for an undecodable file name) in a log —
+    # the JSON sessions must carry it; the XML session is the open finding C10/xml-text-limit/lone-surrogate-save-raises
+    {"kind": "gen", "label": "wf", "nb_threads": 1, "variant": 2, "alias": False, "every": 1, "every_backend": "json",
+     "clock": [10_000 + 750 * i for i in range(40)], "texts": "wild", "xml_strategy": "at_each_log",
+     "events": _with_text(_CORPUS_EVENTS, "caf\udce9 \u65e5\u672c")},
+    {"kind": "gen", "label": "wf", "nb_threads": 1, "variant": 0, "alias": False, "every": 1, "every_backend": "json",
+     "clock": [10_000 + 750 * i for i in range(40)], "texts": "wild", "xml_strategy": "at_each_test",
+     "events": _with_text(_CORPUS_EVENTS, "bell \x07")},
+    # ill-formed: the session start is lost, the report has no start time, the first XML save raises TypeError and stops the common
+    # handler loop (a past disagreement: the model of the XML sessions, `sessRunG xmlSaveOkEnc`, now predicts where)
+    {"kind": "gen", "label": "drop-event", "nb_threads": 1, "variant": 0, "alias": False, "every": 1, "every_backend": "json",
+     "clock": [10_000 + 750 * i for i in range(40)], "events": _CORPUS_EVENTS[1:]},
+]
+
+
 def streams(ctx):
-    return [Snap(), Crash(), Reader()]
+    from props import _c10x
+    _c10x.Locale.corpus = [
+        {"events": _with_text(_CORPUS_EVENTS, "caf\u00e9 \u65e5\u672c \U0001F600"), "nb_threads": 1, "variant": 0, "locale": "ascii",
+         "strategy": "at_each_log", "texts": "safe"},
+        {"events": _with_text(_CORPUS_EVENTS, "caf\udce9"), "nb_threads": 1, "variant": 3, "locale": "utf8",
+         "strategy": "at_each_test", "texts": "wild"},
+    ]
+    return [Snap(), _c10x.Cli(), Crash(), _c10x.Locale(), Reader()]
